@@ -59,9 +59,12 @@ pub fn expected_windows(region: RegionId, snap: &Snap, tx: &TxObs, is_join: bool
             rx2_drs.push(d);
         }
     }
+    // the device was put (by a LinkADRReq) on a data rate that is not an uplink rate of the region,
+    // e.g. DR8..13 in US915/AU915: the RX1 table has no row for it
+    let non_uplink = !rr::uplink_drs(region).contains(&snap.data_rate) && rf_is_dr(region, &tx.rf, snap.data_rate);
     let rx1_dr = match up_dr {
-        Some(u) => offs.iter().map(|o| rr::rx1_dr(region, u, *o)).collect(),
-        None => vec![rr::Rx1Dr::Ambiguous],
+        Some(u) if !non_uplink => offs.iter().map(|o| rr::rx1_dr(region, u, *o)).collect(),
+        _ => vec![rr::Rx1Dr::Ambiguous],
     };
     Expected { up_dr, rx1_freqs, rx1_dr, rx2_freqs, rx2_drs, delay1_ms }
 }
